@@ -625,6 +625,74 @@ func c10Sweep(c *Ctx) error {
 			}
 		}
 	}
+	// boundary values: every prefix (and a few case/space variants) of strings that the minifiers index into, placed
+	// into every kind of slot — length-guard off-by-ones only show on inputs of exactly the guarded length
+	bnd := 0
+	runB := func(mt, doc string) {
+		in := []byte(doc)
+		crash := h.Safely(20*time.Second, func() {
+			m := c10Registry()
+			var w bytes.Buffer
+			_ = m.Minify(mt, &w, bytes.NewReader(in))
+		})
+		bnd++
+		st.Count("boundary "+mt+" "+doc, true)
+		st.Tag("boundary")
+		if crash != "" {
+			c.R.Add(h.Finding{Stage: st.Name, Kind: "fail", What: "minifier " + crash, Input: mt + " " + h.Q([]byte(doc)), Hex: h.Hex([]byte(doc))})
+		}
+	}
+	prefixes := func(ss ...string) []string {
+		seen := map[string]bool{}
+		var out []string
+		add := func(x string) {
+			if !seen[x] {
+				seen[x] = true
+				out = append(out, x)
+			}
+		}
+		for _, s0 := range ss {
+			for i := 0; i <= len(s0); i++ {
+				add(s0[:i])
+				add(strings.ToUpper(s0[:i]))
+			}
+		}
+		return out
+	}
+	urlVals := prefixes("https://x.y/z", "http://x.y/z", "data:text/css;base64,YQ==", "data:,x%20y", "javascript:f()", "//x", "#a")
+	typeVals := prefixes("text/javascript; charset=utf-8", "text/css", "module", "application/ld+json", "text/html;charset=utf-8", "radio", "submit")
+	for _, tag := range []string{"a", "img", "link", "script", "form", "input", "meta", "iframe", "object", "base", "style", "button", "td", "area", "svg", "p"} {
+		for _, attr := range []string{"href", "src", "action", "data", "style", "onclick", "type", "content", "http-equiv", "name", "charset", "value", "id", "class", "media", "method", "colspan", "xmlns"} {
+			vals := urlVals
+			if attr == "type" || attr == "content" || attr == "http-equiv" || attr == "method" || attr == "media" || attr == "name" {
+				vals = typeVals
+			}
+			step := 1
+			if !c.Thorough() && !(attr == "href" || attr == "src" || attr == "type" || attr == "content") {
+				step = 5
+			}
+			for i := 0; i < len(vals); i += step {
+				v := vals[i]
+				runB("text/html", "<"+tag+" "+attr+"="+v+">")
+				runB("text/html", "<"+tag+" "+attr+"=\" "+v+" \">x</"+tag+">")
+			}
+		}
+	}
+	for _, prop := range []string{"background", "color", "margin", "font", "unicode-range", "content", "width", "background-position", "filter", "transform"} {
+		for _, v := range prefixes(`url( "data:image/png;base64,YQ==" )`, `rgba( 0 , 0 , 0 , .5 )`, `#ffffffff`, `1.50e+10px`, `U+0-10FFFF, U+4??`, `"a\"b" 'c'`, `0 0 !important`, `left 10% top 20%`, `progid:DXImageTransform.Microsoft.Alpha(Opacity=50)`, `calc( 1px + ( 2em * 3 ) )`) {
+			runB("text/css", "a{"+prop+":"+v+"}")
+		}
+	}
+	for _, v := range prefixes(`M 10,10 L 20 20 A 5 5 0 0 1 30 30 C 1 1 2 2 3 3 s 1e2 .5.5-1-1 z m1.e5 2`) {
+		runB("image/svg+xml", `<svg><path d="`+v+`"/></svg>`)
+	}
+	for _, v := range prefixes("x=`a${b}c`+'\\x3C\\u{41}\\101'+/re[/]/g.test(y)?1e3:0x1F;class A{#p=1;static{}}", "<svg xmlns=\"http://www.w3.org/2000/svg\" viewBox=\"0 0 10.0 10\"><defs id=\"a\"/><style><![CDATA[a{b:c}]]></style></svg>", "<?xml version=\"1.0\"?><!DOCTYPE a [<!ENTITY x \"y\">]><a b=\"&#60;&amp;\"><![CDATA[ x ]]></a>", "{\"a\":[1.0e+2,-0.5,true,null,\"\\u0041\"]}") {
+		for _, mt := range []string{"application/javascript", "image/svg+xml", "text/xml", "application/json", "text/html", "text/css"} {
+			runB(mt, v)
+		}
+	}
+	c.R.Note("boundary-value documents: %d", bnd)
+
 	// deep nesting in a subprocess
 	dir, err := os.MkdirTemp("", "verif-c10-")
 	if err != nil {
